@@ -254,7 +254,8 @@ def messages(rng):
     _, _, sub, _, _, _, _ = _mods()
     pairs = [kexinit(rng)]
     reason = rng.choice(list(sub.SshReasonCode))
-    description = rng.choice(['', 'bye', u'árvíztűrő', 'Too many authentication failures'])
+    description = rng.choice(['', 'bye', u'árvíztűrő', 'Too many authentication failures', 'Bye Bye\n', ' leading blank', 'trailing blank ',
+                              'two\r\nlines', '\t', ' '])        # free text (RFC 4253 11.1): blanks and line ends at its edges are part of it
     language = rng.choice(['', 'en', 'en-US'])
     pairs.append(Pair('disconnect', sub.SshDisconnectMessage(reason, description, language),
                       ref.disconnect(int(reason), description, language)))
